@@ -41,9 +41,14 @@ chk.extra['rule'] = ('random links over the documented features (order prefixes 
                      'unordered numbering, branches, cycles, chain breaks); a match/apply case is non-trivial if '
                      'the matcher found >= 1 raw match and (>= 1 placement was yielded or a raw match was '
                      'rejected by the non-edge / pattern / order filters); an order case if both orders are valid; '
-                     'distinct = distinct protocol line')
+                     'links also carry effectors of every class incl. the base class and names outside the link, atoms on '
+                     'an integer lattice (exact distances) / off it / without coordinates, log entries, meta=None, three '
+                     'or more orders of which one is invalid; effector streams (init / eq / call on random matches) are '
+                     'non-trivial when the outcome is a value or a specific exception; table streams when at least one '
+                     'API call was made; distinct = distinct protocol line')
 chk.trusted.append('harness/c05.py: encoding of molecules and links read off the real objects, canonicalisation, '
-                   'brute-force Python oracle (independent statement of the link conditions), numeric geometry oracle')
+                   'brute-force Python oracle (independent statement of the link conditions), numeric geometry oracle, '
+                   'exact-integer distance oracle on the lattice, recorder wrapping the Molecule table methods')
 chk.lean(['VermouthProps.C05', 'VermouthProps.C05_Run', 'VermouthProps.C05_Eff'], 'driver_c05')
 
 if os.environ.get('VERIF_C05_DEBUG'):
@@ -70,7 +75,7 @@ EFFECTORS = {ParamDistance: 'dist', ParamAngle: 'angle', ParamDihedral: 'dihedra
              LinkParameterEffector: 'base'}
 EFF_CLASSES = {v: k for k, v in EFFECTORS.items()}
 LATTICE = 32          # lattice positions are integers / LATTICE (exact in binary floating point)
-RUN_ERRORS = (ValueError, TypeError, KeyError, NotImplementedError)
+RUN_ERRORS = (Exception,)      # whatever is raised is an outcome to be judged, never a crash of the check
 
 
 # ----------------------------------------------------------------------------
@@ -696,6 +701,7 @@ def model_state(s, positions):
     if d[1] == 'RUN-DIFFERS':
         return 'model: applyLinks and the replay of its event list differ', maybe, None
     nodes, edges, inters, cites, logs, events = d[1:7]
+    model_state.attr_writes = d[7] if len(d) > 7 else None
     out = []
     for ty, atoms, params, meta in inters:
         out.append([ty, atoms, [model_param(p, positions) for p in params], meta])
@@ -897,6 +903,22 @@ def apply_oracle(before, after, links, snaps, used, positions, calls=None):
         real_drops = [c for c in calls if c[0] == 'drop']
         if len(real_drops) != len(used):
             errs.append('remove_nodes_from was called %d times for %d links' % (len(real_drops), len(used)))
+    # 7. the log lines of a link are recorded on the molecule once per placement used: its format arguments
+    #    followed by the placement, after whatever the molecule already held under that line
+    def plain(items):
+        return [sorted((str(k), int(v)) for k, v in a.items()) if isinstance(a, dict) else str(a) for a in items]
+    want_logs = {(int(lv), str(en)): plain(args) for lv, ents in before.log_entries.items() for en, args in ents.items()}
+    for li, link in enumerate(links):
+        if li >= len(used):
+            break
+        for pl in used[li]:
+            for lv, ents in link.log_entries.items():
+                for en, args in ents.items():
+                    want_logs.setdefault((int(lv), str(en)), []).extend(plain(list(args) + [pl]))
+    got_logs = {(int(lv), str(en)): plain(args) for lv, ents in after.log_entries.items() for en, args in ents.items()}
+    for k in sorted(set(want_logs) | set(got_logs)):
+        if want_logs.get(k, []) != got_logs.get(k, []):
+            errs.append('log entry %s holds %s, the placements used give %s' % (k, got_logs.get(k), want_logs.get(k)))
     return errs
 
 
@@ -1450,6 +1472,64 @@ def porder(o):
     return o
 
 
+def pairwise_cases(rng):
+    """the loop over the pairs of an order_match dictionary (first pair that is not satisfied decides; the
+    REAL match_order is called) in the given and in shuffled dictionary orders, against the model's
+    sequential semantics (pairwiseSeq) and its order-free verdict (pairwiseVerdict)"""
+    def seq(items):
+        try:
+            for (o1, r1), (o2, r2) in itertools.combinations(items, 2):
+                if not match_order(o1, r1, o2, r2):
+                    return '0'
+            return '1'
+        except ValueError:
+            return 'valueerror'
+    good = [0, 1, -1, 2, '>', '>>', '<', '*', '**']
+    lines, meta = [], []
+    for i in range(1500 if chk.thorough else 300):
+        k = rng.choice([0, 1, 2, 3, 3, 4])
+        pool = list(good) + (rng.sample(['x', '', '><', None, '+', 1.5], rng.choice([0, 1, 1, 2])))
+        orders = rng.sample(pool, min(k, len(pool)))
+        base = rng.randint(-3, 6)
+        items = []
+        for o in orders:
+            kind = o_kind(o)
+            if kind and kind[0] == 'n' and rng.random() < 0.55:
+                r = base + kind[1]
+            elif kind and kind[0] in '<>' and rng.random() < 0.55:
+                r = base + (kind[1] if kind[0] == '>' else -kind[1])
+            else:
+                r = base + rng.randint(-3, 3)
+            items.append((o, r))
+        outs = [seq(items)]
+        for _ in range(4):
+            sh = list(items)
+            rng.shuffle(sh)
+            outs.append(seq(sh))
+        rels = [o_order_rel(a[0], a[1], b[0], b[1]) for a, b in itertools.combinations(items, 2)]
+        if all(r is True for r in rels):
+            want = 'yes'
+        elif not any(r is None for r in rels):
+            want = 'no'
+        elif not any(r is False for r in rels):
+            want = 'raises'
+        else:
+            want = 'either'
+        allowed = {'yes': {'1'}, 'no': {'0'}, 'raises': {'valueerror'}, 'either': {'0', 'valueerror'}}[want]
+        errs = []
+        if not set(outs) <= allowed:
+            errs.append('pairs of %s: outcomes %s in the given and four shuffled orders; the relations %s allow %s'
+                        % (items, outs, rels, sorted(allowed)))
+        if len(set(outs)) > 1:
+            chk.count('pairwise_outcome_changes_with_order')
+        chk.count('pairwise_' + want)
+        lines.append(line('pairwise', [[porder(o), r] for o, r in items]))
+        meta.append(('pairwise-%d' % i, want + ' ' + outs[0], errs, len(items) >= 2))
+    models = chk.drv.ask(lines) if chk.lean_ok else [None] * len(lines)
+    for ln, mo, (cid, impl, errs, nt) in zip(lines, models, meta):
+        chk.case(cid, ln, impl, mo, errs, nt)
+
+
 def order_cases():
     rng = chk.rng('order')
     cases = []
@@ -1478,6 +1558,7 @@ def order_cases():
         lines.append(line('order', porder(o1), r1, porder(o2), r2))
         impls.append(impl)
     models = chk.drv.ask(lines) if chk.lean_ok else [None] * len(lines)
+    pairwise_cases(rng)
     for i, ((o1, r1, o2, r2), ln, im, mo) in enumerate(zip(cases, lines, impls, models)):
         errs = []
         want = o_order_rel(o1, r1, o2, r2)
@@ -1737,6 +1818,26 @@ def check_survival(events, calls, after):
     return ''
 
 
+def check_attr_writes(writes, before, after):
+    """theorem replace_attrs_final on the real result: the attributes of every surviving node are its input
+    attributes updated with the model's list of attribute writes for that node (in processing order)"""
+    if writes is None:
+        return ''
+    for k, kvs in writes:
+        if k not in after.nodes:
+            return 'the model keeps node %s, the real result does not' % k
+        want = [[a, v] for a, v in pattrs(simple_attrs(before.nodes[k]))]
+        d = {a: v for a, v in want}
+        for a, v in kvs:
+            d[a] = v
+        got = {a: v for a, v in pattrs(simple_attrs(after.nodes[k]))}
+        if d != got:
+            return 'node %s: input attributes + the model\'s attribute writes %s give %s, the result has %s' % (k, kvs, d, got)
+        if kvs:
+            chk.count('model_attribute_writes_checked')
+    return ''
+
+
 def finish_apply_cases(lines, pending):
     models = chk.drv.ask(lines) if chk.lean_ok else [None] * len(lines)
     for ln, mo, (cid, before, after, links, err, used, snaps, positions, states, extra, calls, owner, keep) in zip(lines, models, pending):
@@ -1757,11 +1858,12 @@ def finish_apply_cases(lines, pending):
         else:
             impl_state = real_state(after, owner, calls)
             impl = show(impl_state)
-            errs = apply_oracle(before, after, links, snaps, used, positions, calls)
-            errs += removal_oracle(states, links, used, positions)
             want = effector_error_oracle(before, links, used, positions)
             if want is not None:
                 errs.append('DoLinks returned normally although the effectors of the links on the placements used give %s' % want)
+            else:
+                errs = apply_oracle(before, after, links, snaps, used, positions, calls)
+                errs += removal_oracle(states, links, used, positions)
         errs += extra
         mstate, maybe, events = model_state(mo, positions) if mo is not None else (None, False, None)
         if mstate is None:
@@ -1771,7 +1873,7 @@ def finish_apply_cases(lines, pending):
         else:
             mo_c = impl if (not isinstance(impl_state, str) and states_agree(impl_state, mstate)) else show(mstate)
             if mo_c == impl and events is not None:
-                verdict = check_survival(events, calls, after)
+                verdict = check_survival(events, calls, after) or check_attr_writes(model_state.attr_writes, before, after)
                 if verdict:
                     mo_c = verdict
         if maybe:
@@ -2228,7 +2330,7 @@ def effector_cases():
             try:
                 val = eff(mol, match)
                 impl_v, impl = val, 'value'
-            except (KeyError, NotImplementedError) as e:
+            except Exception as e:
                 impl_v, impl = None, '!' + type(e).__name__
             # independent statement
             if any(k not in match for k in keys):
